@@ -314,6 +314,7 @@ impl Multiboot2BasicHeader {
 
 impl Header for Multiboot2BasicHeader {
     fn payload_len(&self) -> usize {
+        assert!(self.length as usize >= size_of::<Self>());
         self.length as usize - size_of::<Self>()
     }
 
